@@ -206,11 +206,16 @@ where
 /-! ## deserialize -/
 
 /-- The part of pint that `UnitsSerializer.deserialize` relies on: `units(s)`
-(`UnitRegistry.parse_expression`), returning a quantity, a bare number, or raising; and the
-magnitude token of `units(u)` for a unit expression (`"1"` or `"1.0"`). -/
+(`UnitRegistry.parse_expression`), returning a quantity, a bare number, or raising; and
+`norm m u`, the token of the magnitude that `units(str(m * u))` carries: numerically equal to
+`m`, but an `int` comes back as a `float` when evaluating the unit expression divides
+(`units("3 count / femtoliter")` is `3.0 count / femtoliter`).  `norm "1" u` is the magnitude
+of `units(u)` for a bare unit expression. -/
 structure Pint where
   parse : String → Except Err PVal
-  one : String → String
+  norm : String → String → String
+
+def Pint.one (P : Pint) (u : String) : String := P.norm "1" u
 
 /-- `math.nan * x` -/
 def nanTimes : PVal → PVal
@@ -297,10 +302,10 @@ def floatView (tok : String) : PVal := if nonFinite tok then .none else .float t
 
 mutual
 /-- What a value is restored to: containers keep their shape with tuples / sets / arrays as
-lists, numpy scalars as Python scalars, quantities as themselves, a unit `u` as `1 * u`,
+lists, numpy scalars as Python scalars, quantities as themselves, a unit `u` as `1 * u`, a magnitude as pint re-reads it (`norm`),
 non-finite plain floats as `None` (JSON has no nan/inf), processes and functions as their
 tagged strings (no deserializer exists). -/
-def view (one : String → String) : PVal → PVal
+def view (norm : String → String → String) : PVal → PVal
   | .none => .none
   | .bool b => .bool b
   | .int i => .int i
@@ -310,23 +315,23 @@ def view (one : String → String) : PVal → PVal
   | .npInt i => .int i
   | .npFloat t => floatView t
   | .npBool b => .bool b
-  | .list xs => .list (viewList one xs)
-  | .tuple xs => .list (viewList one xs)
-  | .set xs => .list (viewList one xs)
-  | .ndarray xs => .list (viewList one xs)
-  | .dict kvs => .dict (viewKVs one kvs)
-  | .quantity m u => .quantity m u
-  | .quantityArr ms u => .list (ms.map fun m => .quantity m u)
-  | .unit u => .quantity (one u) u
+  | .list xs => .list (viewList norm xs)
+  | .tuple xs => .list (viewList norm xs)
+  | .set xs => .list (viewList norm xs)
+  | .ndarray xs => .list (viewList norm xs)
+  | .dict kvs => .dict (viewKVs norm kvs)
+  | .quantity m u => .quantity (norm m u) u
+  | .quantityArr ms u => .list (ms.map fun m => .quantity (norm m u) u)
+  | .unit u => .quantity (norm "1" u) u
   | .process r => .str (tagProcess r)
   | .function r => .str (tagFunction r)
   | .unsupported t => .unsupported t
-def viewList (one : String → String) : List PVal → List PVal
+def viewList (norm : String → String → String) : List PVal → List PVal
   | [] => []
-  | x :: xs => view one x :: viewList one xs
-def viewKVs (one : String → String) : List (Key × PVal) → List (Key × PVal)
+  | x :: xs => view norm x :: viewList norm xs
+def viewKVs (norm : String → String → String) : List (Key × PVal) → List (Key × PVal)
   | [] => []
-  | (k, v) :: rest => (k, view one v) :: viewKVs one rest
+  | (k, v) :: rest => (k, view norm v) :: viewKVs norm rest
 end
 
 /-! ## a concrete token-level stand-in for pint (used by the driver and the non-vacuity examples) -/
@@ -358,10 +363,10 @@ def intOfTok (cs : List Char) : Int :=
   | '-' :: rest => - (natOfDigits rest : Int)
   | _ => (natOfDigits cs : Int)
 
-/-- `1.0` when the unit expression divides or has a float exponent (pint computes `1 / x`,
-`x ** 0.5` in floats), else `1` -/
-def tokenOne (u : String) : String :=
-  if u.toList.any (fun c => c == '/' || c == '.') then "1.0" else "1"
+/-- an int magnitude becomes a float when the unit expression divides or has a float exponent
+(pint evaluates `m * a / b`, `x ** 0.5` with true division / float power) -/
+def tokenNorm (m u : String) : String :=
+  if isIntTok m.toList && u.toList.any (fun c => c == '/' || c == '.') then m ++ ".0" else m
 
 /-- `<number> <unit expression>` | `<number>` | `<unit expression>` -/
 def tokenParse (s : String) : Except Err PVal :=
@@ -375,9 +380,9 @@ def tokenParse (s : String) : Except Err PVal :=
     if isNumTok head then
       if rest.isEmpty then
         (if isIntTok head then .ok (.int (intOfTok head)) else .ok (.float (String.ofList head)))
-      else .ok (.quantity (String.ofList head) (String.ofList rest))
-    else .ok (.quantity (tokenOne (String.ofList cs)) (String.ofList cs))
+      else .ok (.quantity (tokenNorm (String.ofList head) (String.ofList rest)) (String.ofList rest))
+    else .ok (.quantity (tokenNorm "1" (String.ofList cs)) (String.ofList cs))
 
-def Pint.token : Pint := { parse := tokenParse, one := tokenOne }
+def Pint.token : Pint := { parse := tokenParse, norm := tokenNorm }
 
 end Viv.Ser
